@@ -217,8 +217,10 @@ def load_3DXML(file_obj, *args, **kwargs):
                 mesh_image = images.get(material_id)  # texture for this Rep, if any
 
             for faces in Rep.iter("{*}Faces"):
-                triangles = []  # mesh triangles for this Faces element
                 for face in faces.iter("{*}Face"):
+                    # the triangles of this Face element only: collecting them
+                    # per Faces element added every earlier face again
+                    triangles = []
                     # Each Face may have optional strips, triangles or fans attributes
                     if "strips" in face.attrib:
                         # triangle strips, sequence of arbitrary length lists
